@@ -65,6 +65,71 @@ def one_load(spec, patches):
     return out
 
 
+class SharesState(F.SupportRemoteGetState):
+    """opt-in class whose __getstate__ hands out a dictionary that something else in the graph holds too"""
+
+    def __init__(self, state):
+        self.__dict__ = state
+
+    def __getstate__(self, remote=False):
+        return self.__dict__          # not a copy: the pickle memo may see the very same dict elsewhere
+
+    def __setstate__(self, state):
+        self.__dict__.update(state)
+
+
+class Holder:
+    pass
+
+
+def aliased_state_cases(ctx):
+    """patches are merged into the state of the addressed object only: a dictionary that happens to BE that state
+    (same object before pickling) and is also reachable elsewhere in the graph must not show them"""
+    from pyworkers import remote_pickle
+    import pickle
+
+    def graphs():
+        # (a) top-level opt-in object, a plain holder keeps a view of its attributes
+        d = {'lr': 1, 'epochs': 3}
+        top = SharesState(d)
+        h = Holder()
+        h.fields = d
+        top.__dict__['audit'] = h
+        yield 'top+holder', top, {'lr': 5, 'new': 7}, lambda g: g.audit.fields, lambda g: g
+        # (b) child opt-in object whose state dict is also an attribute of its (opt-in) parent
+        d2 = {'lr': 1, 'epochs': 3}
+        parent = F.OptSet.__new__(F.OptSet)
+        parent._id = 1
+        parent.defaults = d2
+        parent.job = SharesState(d2)
+        yield 'child+parent-attr', parent, {'job': {'lr': 5, 'seed': 7}}, lambda g: g.defaults, lambda g: g.job
+        # (c) the same inside a list holder next to the opt-in object
+        d3 = {'x': 1}
+        yield 'list-sibling', [SharesState(d3), d3][0:1] + [d3], None, None, None
+    for name, g, patches, other, target in graphs():
+        if patches is None:
+            continue
+        data = remote_pickle.dumps(g)
+        for rep in (1, 2):            # (a second load must not see residue of the first either)
+            try:
+                plain = remote_pickle.loads(data)
+                patched = remote_pickle.loads(data, extra_kwargs=patches)
+            except BaseException as e:  # noqa
+                ctx.fail(f'aliased-state:load-error:{name}', f'{name}: load failed with {type(e).__name__}: {e}', {'kind': 'aliased_state', 'graph': name})
+                break
+            before, after = dict(other(plain)), dict(other(patched))
+            before.pop('audit', None), after.pop('audit', None)
+            ctx.case(('aliased-state', name, rep), True, sample={'case': 'state dict shared with another object of the graph', 'graph': name, 'other_object_unpatched': before, 'other_object_patched_load': after} if rep == 1 else None)
+            if name != 'top+holder' and after != before:
+                ctx.fail(f'misdelivery:aliased-state:{name}', f'{name}: patches {patches} for one object changed another object of the graph: {before} became {after}', {'kind': 'aliased_state', 'graph': name})
+            if name == 'top+holder':
+                # the holder's dictionary is the state itself before pickling; after the load it is a dictionary of its own:
+                # it must look as in an unpatched load
+                keys = {k for k in after if k not in before}
+                if after != before:
+                    ctx.fail(f'misdelivery:aliased-state:{name}', f'{name}: patches {patches} for the top-level object also show in a plain object of the graph: {before} became {after} (new keys {sorted(keys)})', {'kind': 'aliased_state', 'graph': name})
+
+
 def main(ctx: Ctx):
     ctx.assumptions += [
         'E-P1 (hook order of CPython pickle) as in C14',
@@ -181,8 +246,16 @@ def main(ctx: Ctx):
         g, p = cases[errs[0]]
         ctx.fail('threads:interference', f'concurrent loads on 4 threads: {len(errs)} loads differ from their single-threaded result', {'graph': g, 'patches': p, 'threads': 4})
 
+    aliased_state_cases(ctx)
+
 
 def replay(case):
+    if case.get('kind') == 'aliased_state':
+        class C:
+            def case(self, *a, **k): print('observed', k.get('sample'))
+            def fail(self, sig, what, desc): print('FAIL', sig, what)
+        aliased_state_cases(C())
+        return
     def tup(x):
         return tuple(tup(y) for y in x) if isinstance(x, list) and x and isinstance(x[0], str) else ([tup(y) for y in x] if isinstance(x, list) else x)
     spec = tup(case['graph'])
